@@ -300,7 +300,8 @@ def lookupCurrent (compile : Nat → Option Nat) (build : Nat → Nat) (q : Req)
 def lookupSharedWrites : List (String × String × String) :=
   [("GlobCache.Get", "locked", "GlobCache.h"),
    ("GlobCache.Get", "locked", "GlobCache.l"),
-   ("GlobCache.Get", "locked", "GlobCache.m"),
+   ("GlobCache.Get", "locked", "GlobCache.m.Delete"),
+   ("GlobCache.Get", "locked", "GlobCache.m.Store"),
    ("GlobCache.Get", "locked", "GlobCache.n"),
    ("rrPicker", "atomic", "Route.total")]
 
